@@ -375,14 +375,17 @@ impl ClusterHandler for GenCommHandler<'_> {
             let notify_change = |endpt_id, clust_id| ctx.notify_cluster_changed(endpt_id, clust_id);
 
             CommissioningErrorEnum::map(ctx.exchange().with_state(|state| {
+                // The session this command arrived on must survive until the response is
+                // out: a PASE session, or a CASE session of the very fabric the rollback
+                // removes, is only marked as expired by `expire` (any other session is not
+                // touched by it at all).
                 let sess = ctx.exchange().id().session(&mut state.sessions);
-                let pase_sess_id =
-                    matches!(sess.get_session_mode(), SessionMode::Pase { .. }).then(|| sess.id());
+                let own_sess_id = Some(sess.id());
 
                 removed_fabric = state.failsafe.expire(
                     &mut state.fabrics,
                     &mut state.sessions,
-                    pase_sess_id,
+                    own_sess_id,
                     ctx.networks(),
                     ctx.kv(),
                     notify_mdns,
